@@ -30,6 +30,7 @@ func runC17(c *Ctx, r *Rec) {
 	}
 	info := c.info("agent")
 	checkNoReentryAnywhere(c, r, "D2-no-reentry-under-lock", "collection", "GetIterator")
+	checkUnsignedExtremes(c, r, "D1-extreme-arguments", fileFuncs(c, "agent", it), nil)
 	st := structOf(it)
 	if st == nil {
 		r.undecided("bind", "agent.iterator", "", "iterator type is not a struct")
